@@ -1,5 +1,8 @@
 use self::generics_list::GenericsList;
 use scale_info::{form::PortableForm, Field, PortableRegistry, Type, TypeDef};
+#[cfg(feature = "verif-hooks")]
+use crate::verif_hooks::{HashMap, HashSet};
+#[cfg(not(feature = "verif-hooks"))]
 use std::collections::{HashMap, HashSet};
 
 use crate::TypegenError;
